@@ -109,7 +109,7 @@ func runC11(c *Ctx, ev *Evidence) ([]Violation, error) {
 	timeout, grace := unitTimeouts(c)
 	maxAttrs, all := 2, 0
 	if c.Tier == "thorough" {
-		maxAttrs, all = 3, 1
+		maxAttrs, all = 2, 1 // three attributes with all 31 combinations exceed the hour budget (100k+ obligations)
 	}
 	cfg := sym.Config{Stubs: map[string]string{validURLFn: "stubValidURL"}, Params: map[string]int{"maxAttrs": maxAttrs, "allOptions": all}, SplitMax: 3}
 	if c.Tier == "thorough" {
